@@ -48,7 +48,7 @@ Step == /\ mode = "run"
                   /\ ev' = EvOf(e, S')
                   /\ aux' = AuxNext(aux, S, ev', S')
                   /\ mode' = mode
-                  /\ hist' = Append(hist, <<e.asset, e.kind>>)
+                  /\ hist' = Append(hist, <<e.asset, e.kind, e.arg>>)
         /\ UNCHANGED cfg
 
 Finish == /\ mode = "end"
